@@ -176,6 +176,9 @@ func (x *Exec) ident(e *ast.Ident, st *State) Value {
 	switch o := obj.(type) {
 	case *types.Var:
 		if v, ok := st.vars[o]; ok {
+			if bx, isBx := v.(Bx); isBx {
+				return x.heapLoad(st, o.Type(), bx.P, "")
+			}
 			if reg := x.arrRegions[o]; reg != nil {
 				// a sliced local array: the region holds the live content as
 				// long as the variable itself was not assigned since
@@ -513,6 +516,23 @@ func (x *Exec) addrOf(e *ast.UnaryExpr, st *State) Value {
 		x.heapStoreStruct(st, t, p, v)
 		return Sc{p}
 	}
+	if id, ok := unparen(e.X).(*ast.Ident); ok {
+		if v, ok := x.info.ObjectOf(id).(*types.Var); ok && v.Pkg() != nil && v.Parent() != v.Pkg().Scope() {
+			if _, isStruct := v.Type().Underlying().(*types.Struct); isStruct {
+				cur, have := st.vars[v]
+				if bx, ok := cur.(Bx); ok {
+					return Sc{bx.P}
+				}
+				if _, isSt := cur.(St); have && isSt {
+					// the variable moves to the heap: from here on it is *p
+					p := x.alloc(st, "addr_"+v.Name())
+					x.heapStoreStruct(st, v.Type(), p, cur)
+					st.vars[v] = Bx{p}
+					return Sc{p}
+				}
+			}
+		}
+	}
 	x.abstr["address-of "+x.src(e)] = true
 	p := x.freshTerm("addr", IntSort)
 	st.add(Neq(p, IntC(0)))
@@ -522,6 +542,8 @@ func (x *Exec) addrOf(e *ast.UnaryExpr, st *State) Value {
 func (x *Exec) alloc(st *State, hint string) *Term {
 	p := x.freshTerm(hint, IntSort)
 	st.add(IGt(p, IntC(0)))
+	st.add(IGt(p, x.frontier(st)))
+	st.ghosts["$frontier"] = Sc{p}
 	for _, q := range x.allocd {
 		st.add(Neq(p, q))
 	}
@@ -1215,6 +1237,10 @@ func (x *Exec) store(l ast.Expr, v Value, st *State) {
 				arr := x.heapGet(st, key, ArrSort(IntSort, c.S))
 				st.heap[key] = Store(arr, IntC(0), ts[i])
 			}
+			return
+		}
+		if bx, isBx := st.vars[o].(Bx); isBx {
+			x.heapStoreStruct(st, o.Type(), bx.P, v)
 			return
 		}
 		st.vars[o] = v
